@@ -2754,6 +2754,7 @@ static int FIO_decompressFrames(FIO_ctx_t* const fCtx,
     unsigned readSomething = 0;
     unsigned long long filesize = 0;
     int passThrough = prefs->passThrough;
+    unsigned nbFramesDecoded = 0;
 
     if (passThrough == -1) {
         /* If pass-through mode is not explicitly enabled or disabled,
@@ -2780,7 +2781,7 @@ static int FIO_decompressFrames(FIO_ctx_t* const fCtx,
         }
         readSomething = 1;   /* there is at least 1 byte in srcFile */
         if (ress.readCtx->srcBufferLoaded < toRead) { /* not enough input to check magic number */
-            if (passThrough) {
+            if (passThrough && nbFramesDecoded == 0) {   /* pass-through is for files that are not compressed at all */
                 return FIO_passThrough(&ress);
             }
             DISPLAYLEVEL(1, "zstd: %s: unknown header \n", srcFileName);
@@ -2789,12 +2790,12 @@ static int FIO_decompressFrames(FIO_ctx_t* const fCtx,
         if (ZSTD_isFrame(buf, ress.readCtx->srcBufferLoaded)) {
             unsigned long long const frameSize = FIO_decompressZstdFrame(fCtx, &ress, prefs, srcFileName, filesize);
             if (frameSize == FIO_ERROR_FRAME_DECODING) return 1;
-            filesize += frameSize;
+            filesize += frameSize; nbFramesDecoded++;
         } else if (buf[0] == 31 && buf[1] == 139) { /* gz magic number */
 #ifdef ZSTD_GZDECOMPRESS
             unsigned long long const frameSize = FIO_decompressGzFrame(&ress, srcFileName);
             if (frameSize == FIO_ERROR_FRAME_DECODING) return 1;
-            filesize += frameSize;
+            filesize += frameSize; nbFramesDecoded++;
 #else
             DISPLAYLEVEL(1, "zstd: %s: gzip file cannot be uncompressed (zstd compiled without HAVE_ZLIB) -- ignored \n", srcFileName);
             return 1;
@@ -2804,7 +2805,7 @@ static int FIO_decompressFrames(FIO_ctx_t* const fCtx,
 #ifdef ZSTD_LZMADECOMPRESS
             unsigned long long const frameSize = FIO_decompressLzmaFrame(&ress, srcFileName, buf[0] != 0xFD);
             if (frameSize == FIO_ERROR_FRAME_DECODING) return 1;
-            filesize += frameSize;
+            filesize += frameSize; nbFramesDecoded++;
 #else
             DISPLAYLEVEL(1, "zstd: %s: xz/lzma file cannot be uncompressed (zstd compiled without HAVE_LZMA) -- ignored \n", srcFileName);
             return 1;
@@ -2813,12 +2814,12 @@ static int FIO_decompressFrames(FIO_ctx_t* const fCtx,
 #ifdef ZSTD_LZ4DECOMPRESS
             unsigned long long const frameSize = FIO_decompressLz4Frame(&ress, srcFileName);
             if (frameSize == FIO_ERROR_FRAME_DECODING) return 1;
-            filesize += frameSize;
+            filesize += frameSize; nbFramesDecoded++;
 #else
             DISPLAYLEVEL(1, "zstd: %s: lz4 file cannot be uncompressed (zstd compiled without HAVE_LZ4) -- ignored \n", srcFileName);
             return 1;
 #endif
-        } else if (passThrough) {
+        } else if (passThrough && nbFramesDecoded == 0) {   /* bytes that follow a decoded frame are not a plain file : error below */
             return FIO_passThrough(&ress);
         } else {
             DISPLAYLEVEL(1, "zstd: %s: unsupported format \n", srcFileName);
